@@ -215,6 +215,20 @@ def myokit_to_gotran(model: myokit.Model, protocol=None) -> ODE:
     )
 
 
+class _ExpressionReader(myokit.formats.sympy.SymPyExpressionReader):
+    """Expression reader that turns the name of a state derivative into ``dot(state)``"""
+
+    def __init__(self, model: myokit.Model, derivatives: dict[str, str]) -> None:
+        super().__init__(model=model)
+        self._derivatives = derivatives
+
+    def _ex_name(self, e):
+        qname = self._derivatives.get(str(e))
+        if qname is not None:
+            return myokit.Derivative(myokit.Name(self._model.get(qname, myokit.Variable)))
+        return super()._ex_name(e)
+
+
 def gotran_to_myokit(ode: ODE, time_component="engine", time_unit="s") -> myokit.Model:
     """Convert a gotran ODE to myokit model
 
@@ -250,6 +264,9 @@ def gotran_to_myokit(ode: ODE, time_component="engine", time_unit="s") -> myokit
         "t": sp.Symbol(f"{time_component}.time"),
     }
 
+    # An expression may also refer to the derivative of a state (``dV_dt``)
+    derivative_map: dict[str, str] = {}
+
     def qualified(expr: sp.Expr) -> sp.Expr:
         return expr.xreplace(
             {s: global_var_map[s.name] for s in expr.free_symbols if s.name in global_var_map}
@@ -266,6 +283,7 @@ def gotran_to_myokit(ode: ODE, time_component="engine", time_unit="s") -> myokit
             var = comp.add_variable(state.name)
             var.set_unit(to_myokit_unit(state.unit_str))
             global_var_map[state.name] = sp.Symbol(var.qname())
+            derivative_map[state_derivative.name] = var.qname()
 
         for parameter in component.parameters:
             var = comp.add_variable(parameter.name)
@@ -278,7 +296,7 @@ def gotran_to_myokit(ode: ODE, time_component="engine", time_unit="s") -> myokit
             var.set_unit(to_myokit_unit(intermediate.unit_str))
             global_var_map[intermediate.name] = sp.Symbol(var.qname())
 
-    sympy_reader = myokit.formats.sympy.SymPyExpressionReader(model=model)
+    sympy_reader = _ExpressionReader(model=model, derivatives=derivative_map)
     # Then we can add expressions
     for component in ode.components:
         comp = model[component.name]
